@@ -135,6 +135,14 @@ def run(prog, chk):
     else:
         chk.bad("C20.d", op, "child-redirection-order", "%s:%s" % (op.file, op.line),
                 "in the child each redirected pipe end must be dup2()ed onto its standard descriptor (stdout<-stdoutFds[1], stderr<-stderrFds[1], stdin<-stdinFds[0]) before it is closed, all before execvpe; found %s" % sorted(pairs))
+    # child: every pipe descriptor (its own three after dup2, and the parent's three) is closed before exec
+    child_closed = set(q.no_casts(op.r(q.call_args(op, c)[0])) for c in closes if any(q.reaches(op, c, e) for e in ex))
+    all_fds = {"stdoutFds[0]", "stdoutFds[1]", "stderrFds[0]", "stderrFds[1]", "stdinFds[0]", "stdinFds[1]"}
+    if all_fds <= child_closed:
+        chk.ok("C20.d", op, "child closes all six pipe descriptors before execvpe", op.where(ex[0]), "close() reaching exec for each of %s" % sorted(all_fds), evals=6)
+    else:
+        chk.bad("C20.d", op, "child-keeps-pipe-end:" + ",".join(sorted(all_fds - child_closed)), op.where(ex[0]),
+                "the child reaches execvpe with %s still open: a write end kept open in the child means its own stdin (or the parent's reader) never sees end-of-file" % sorted(all_fds - child_closed))
     for f in (op, pfn(prog, "Process::start", lambda f: len(f.params) == 4 and f.params[1]["t"] == "int")):
         st = C.nstores(f)
         term = [s for s, l, r in st if l == "args[argc]" and r == "0"]
